@@ -2,7 +2,6 @@
    ExtrOcamlBasic and ExtrOcamlZBigInt (positive/Z/N -> zarith big integers), nothing of ours. *)
 Require Coq.extraction.Extraction.
 Require Import ExtrOcamlBasic ExtrOcamlZBigInt.
-From SedV Require Import Xnum Keep.
+From SedV Require Import Xnum Keep SrcAscii FilterOut.
 Extraction Language OCaml.
-Set Extraction Output Directory ".".
-Extraction "sedmodel.ml" Keep.nkeep.
+Extraction "sedmodel.ml" Keep.nkeep SrcAscii.from_ascii_m FilterOut.filter_output_m.
